@@ -39,9 +39,9 @@ def sh(cmd, cwd=None, env=None, timeout=None, check=False):
 
 
 def repo_state():
-    rc, out = sh(["git", "-C", REPO, "status", "--porcelain"])
-    rc2, head = sh(["git", "-C", REPO, "rev-parse", "HEAD"])
-    return out, head.strip()
+    """go.mod / go.sum of /repo must never be touched by a check (go -mod=mod inside /repo would)."""
+    rc, out = sh(["git", "-C", REPO, "status", "--porcelain", "--", "go.mod", "go.sum"])
+    return out
 
 
 # ------------------------------------------------------------------ Coq build
@@ -356,6 +356,17 @@ def run_check(spec, tier, replay=None):
             rep.known_finding(f)
         else:
             unknown.append((i, code))
+    # disagreements where only the correspondence is broken (implementation still within the
+    # specification's tolerance): reported without a failing input
+    tie_codes = spec.get("tie_codes", (3,))
+    tie_only = [(i, code) for i, code in unknown if code in tie_codes]
+    unknown = [(i, code) for i, code in unknown if code not in tie_codes]
+    if tie_only and not unknown:
+        rep.violation({"property": pid,
+                       "broken_tie": "correspondence Check/%s.v: implementation no longer agrees with the model on %d case(s), "
+                                     "but no input was found on which the property itself fails (outputs still within the specification's tolerance)" % (pid, len(tie_only)),
+                       "examples": [cases[i] for i, _ in tie_only[:3]], "seed": seed},
+                      name="tie-broken", no_input=True)
     # explain at most 8 unknown disagreements
     if unknown:
         terms = []
